@@ -130,24 +130,32 @@ def run(chk):
     def call_hook(itp, f, args, kwargs, e, fr):
         if isinstance(f, FuncRef) and f.node.name in ('orbit_changed', 'dissipation_changed'):
             return None
-        if isinstance(f, FuncRef) and f.node.name == 'world_signature_to_index':
-            sig = args[0] if args else kwargs.get('world_signature')
-            if isinstance(sig, Obj):
-                return sig.attrs['__index__']
-            return sig
         return NotImplemented
-    it2 = Interp(repo, hooks={'global': glob_hook, 'call': call_hook}, max_depth=12)
+
+    def branch_hook(itp, st, v, fr):
+        # isinstance(x, all_world_types): true exactly for the world objects of the graph
+        t = st.test if isinstance(st, ast.If) else None
+        if isinstance(t, ast.Call) and isinstance(t.func, ast.Name) and t.func.id == 'isinstance' and len(t.args) == 2 and isinstance(t.args[0], ast.Name):
+            return isinstance(fr.vars.get(t.args[0].id), Obj)
+        return None
+    it2 = Interp(repo, hooks={'global': glob_hook, 'call': call_hook, 'branch': branch_hook}, max_depth=12)
 
     def fresh():
-        worlds = [Obj(name=f'world{i}', attrs={'mass': Mw[i], 'force_spin_sync': False, 'name': f'w{i}', '__index__': i}) for i in range(3)]
+        """star + tidal host (slot 0: its heliocentric orbit) + two moons (slots 1, 2); moon 1 is the host's tide raiser"""
+        notify = {'orbit_spin_changed': Opaque('world.orbit_spin_changed'), 'set_spin_frequency': Opaque('world.set_spin_frequency')}   # world-side notifications: C13's business
+        host = Obj(name='host', attrs={'mass': Mh, 'force_spin_sync': False, 'name': 'Host', **notify})
+        worlds = [host] + [Obj(name=f'world{i}', attrs={'mass': Mw[i], 'force_spin_sync': False, 'name': f'Moon{i}', **notify}) for i in (1, 2)]
         o = Obj(cls=('class', mo, cls), name='orbit', attrs={
             '_semi_major_axes': [X.atom(f'old_a{i}', 'pos') for i in range(3)], '_orbital_frequencies': [X.atom(f'old_n{i}', 'pos') for i in range(3)],
             '_orbital_periods': [X.atom(f'old_P{i}', 'pos') for i in range(3)], '_eccentricities': [X.atom(f'old_e{i}', 'pos') for i in range(3)],
-            '_tidal_objects': worlds, '_tidal_host': Obj(name='host', attrs={'mass': Mh}), '_star': Obj(name='star', attrs={'mass': Ms}),
-            '_host_tide_raiser': worlds[1], '_star_host': False})
+            '_tidal_objects': worlds, '_tidal_host': host, '_star': Obj(name='star', attrs={'mass': Ms, 'name': 'Star'}),
+            '_host_tide_raiser': worlds[1], '_star_host': False,
+            '_all_tidal_world_orbit_index_by_name': {'Host': 0, 'Moon1': 1, 'Moon2': 2},
+            '_all_tidal_world_orbit_index_by_instance': {worlds[0]: 0, worlds[1]: 1, worlds[2]: 2}})
         o.attrs['_all_objects'] = [o.attrs['_star']] + worlds
         return o, worlds
     val = X.atom('new_value', 'pos')
+    masses = [Mh, Mw[1], Mw[2]]
 
     def kepler_ok(o, i, stellar):
         a_ = o.attrs['_semi_major_axes'][i]; n_ = o.attrs['_orbital_frequencies'][i]; P_ = o.attrs['_orbital_periods'][i]
@@ -156,46 +164,88 @@ def run(chk):
         if not all(isinstance(v, X.Node) for v in (a_, n_, P_)):
             return False, f'mixed cleared/stored: a={a_!r} n={n_!r} P={P_!r}'
         host = Ms if stellar else Mh
-        ok1 = d.equal(a_ ** 3 * n_ * n_, Gc * (host + Mw[i]))
+        ok1 = d.equal(a_ ** 3 * n_ * n_, Gc * (host + masses[i]))
         ok2 = d.equal(P_ * n_ * 86400, 2 * pi)
-        return ok1 and ok2, ('' if ok1 else 'a^3 n^2 != G (M_host + M_world); ') + ('' if ok2 else 'P != 2 pi / n / 86400')
+        return ok1 and ok2, ('' if ok1 else f'slot {i}: a^3 n^2 != G (M_host + M_world); ') + ('' if ok2 else f'slot {i}: P != 2 pi / n / 86400')
     cases = [('set_semi_major_axis', {}), ('set_orbital_frequency', {}), ('set_orbital_period', {}),
              ('set_state', {'semi_major_axis': True}), ('set_state', {'orbital_frequency': True}), ('set_state', {'orbital_period': True}),
              ('set_state', {'eccentricity': True})]
+    # (how the world is named, set_stellar_orbit) -> slot that must be updated.  The tidal host's own slot (0) holds its heliocentric orbit and is
+    # addressed only with set_stellar_orbit=True; without it the host's signature means the orbit of its tide raiser (slot 1).
+    sigs = [('int 2', lambda w: 2, False, 2), ('int 2', lambda w: 2, True, 2), ('moon instance', lambda w: w[2], False, 2), ('moon name', lambda w: 'Moon2', False, 2),
+            ('int 0 (tidal host)', lambda w: 0, True, 0), ('host instance', lambda w: w[0], True, 0), ('host name', lambda w: 'Host', True, 0),
+            ('int 0 (tidal host)', lambda w: 0, False, 1), ('host instance', lambda w: w[0], False, 1)]
+    KEP = ('_semi_major_axes', '_orbital_frequencies', '_orbital_periods')
     for meth, kw in cases:
         if meth not in ms:
             raise AnalysisError(f'OrbitBase.{meth} vanished')
-        for stellar in (False, True):
+        for signame, mk, stellar, slot in sigs:
             for by_world in ((False, True) if meth == 'set_state' else (False,)):
                 o, worlds = fresh()
-                i = 2
+                sig = mk(worlds)
                 if meth == 'set_state':
                     kws = {k: val for k in kw}; kws['set_stellar_orbit'] = stellar; kws['set_by_world'] = by_world
-                    it2.call(mo, ms[meth], [i], kws, self_obj=o)
+                    it2.call(mo, ms[meth], [sig], kws, self_obj=o)
                 else:
-                    it2.call(mo, ms[meth], [i, val], {'set_stellar_orbit': stellar}, self_obj=o)
-                ok, why = kepler_ok(o, i, stellar)
+                    it2.call(mo, ms[meth], [sig, val], {'set_stellar_orbit': stellar}, self_obj=o)
+                ok, why = kepler_ok(o, slot, stellar)
                 which = list(kw)[0] if kw else meth[4:]
-                # the quantity provided must be stored as given
+                # the quantity provided must be stored as given, in the slot the signature designates
                 stored = {'semi_major_axis': '_semi_major_axes', 'orbital_frequency': '_orbital_frequencies', 'orbital_period': '_orbital_periods', 'eccentricity': '_eccentricities'}[which]
-                given_ok = o.attrs[stored][i] is val
+                given_ok = o.attrs[stored][slot] is val
                 if which == 'eccentricity':
                     # Kepler triple untouched
-                    untouched = all(o.attrs[k][i].op == 'atom' and o.attrs[k][i].val[0].startswith('old_') for k in ('_semi_major_axes', '_orbital_frequencies', '_orbital_periods'))
+                    untouched = all(o.attrs[k][slot].op == 'atom' and o.attrs[k][slot].val[0].startswith('old_') for k in KEP)
                     ok, why = untouched, '' if untouched else 'eccentricity-only change modified the Kepler triple'
-                # other worlds untouched
-                others = all(o.attrs[k][j].op == 'atom' and o.attrs[k][j].val[0].startswith('old_') for k in ('_semi_major_axes', '_orbital_frequencies', '_orbital_periods', '_eccentricities') for j in (0, 1))
-                inst = f'OrbitBase.{meth}({which}, stellar={stellar}' + (f', set_by_world={by_world}' if meth == 'set_state' else '') + ')'
-                chk.ob('R17.4', inst + ': stored (a, n, P) Kepler-consistent, given value stored, other worlds untouched', ok and given_ok and others,
-                       why + ('' if given_ok else ' given value not stored;') + ('' if others else ' other worlds modified'), mo.where(ms[meth]), key=f'R17.4|{inst}', method='interpreted mutator + GF(p^2) PIT')
+                # every other slot untouched
+                touched = [f'{k}[{j}]' for k in KEP + ('_eccentricities',) for j in range(3) if j != slot
+                           and not (isinstance(o.attrs[k][j], X.Node) and o.attrs[k][j].op == 'atom' and o.attrs[k][j].val[0].startswith('old_'))]
+                inst = f'OrbitBase.{meth}({which}, world given as {signame}, stellar={stellar}' + (f', set_by_world={by_world}' if meth == 'set_state' else '') + ')'
+                chk.ob('R17.4', inst + f': slot {slot} holds a Kepler-consistent (a, n, P) with the given value, all other slots untouched', ok and given_ok and not touched,
+                       why + ('' if given_ok else f' given value not stored in slot {slot};') + (f' other slots modified: {touched}' if touched else ''), mo.where(ms[meth]),
+                       key=f'R17.4|{inst}', method='interpreted mutator (real world_signature_to_index) + GF(p^2) PIT')
+    # readers and writers agree on the slot: what a setter stored for (signature, stellar flag) is what the getter of the same (signature, flag) reports,
+    # and the three getters of one (signature, flag) read one and the same slot
+    getters = {'get_semi_major_axis': '_semi_major_axes', 'get_orbital_frequency': '_orbital_frequencies', 'get_orbital_period': '_orbital_periods', 'get_eccentricity': '_eccentricities'}
+    for gname, field in getters.items():
+        if gname not in ms:
+            raise AnalysisError(f'OrbitBase.{gname} vanished')
+        for signame, mk, stellar, slot in sigs:
+            o, worlds = fresh()
+            got = it2.call(mo, ms[gname], [mk(worlds)], {'for_stellar_orbit': stellar}, self_obj=o)
+            ok = got is o.attrs[field][slot]
+            chk.ob('R17.4', f'OrbitBase.{gname}(world given as {signame}, for_stellar_orbit={stellar}) reads {field}[{slot}] (the slot the setters write for that signature)', ok,
+                   f'returns {got!r}, expected the entry of slot {slot}', mo.where(ms[gname]), method='interpreted accessor (real world_signature_to_index)')
+    # stellar-distance convenience pair: for a non-star host the stellar distance is the host's heliocentric semi-major axis (slot 0)
+    if 'set_stellar_distance' in ms and 'get_stellar_distance' in ms:
+        for signame, mk in (('int 0 (tidal host)', lambda w: 0), ('host instance', lambda w: w[0]), ('host name', lambda w: 'Host')):
+            o, worlds = fresh()
+            it2.call(mo, ms['set_stellar_distance'], [mk(worlds), val], {}, self_obj=o)
+            ok, why = kepler_ok(o, 0, True)
+            given_ok = o.attrs['_semi_major_axes'][0] is val
+            touched = [f'{k}[{j}]' for k in KEP + ('_eccentricities',) for j in (1, 2)
+                       if not (isinstance(o.attrs[k][j], X.Node) and o.attrs[k][j].op == 'atom' and o.attrs[k][j].val[0].startswith('old_'))]
+            chk.ob('R17.4', f'OrbitBase.set_stellar_distance(world given as {signame}): slot 0 holds a Kepler-consistent heliocentric (a, n, P), moons untouched', ok and given_ok and not touched,
+                   why + ('' if given_ok else ' given distance not stored in slot 0;') + (f' other slots modified: {touched}' if touched else ''), mo.where(ms['set_stellar_distance']),
+                   method='interpreted mutator (real world_signature_to_index) + GF(p^2) PIT')
+            got = it2.call(mo, ms['get_stellar_distance'], [mk(worlds)], {}, self_obj=o)
+            chk.ob('R17.4', f'OrbitBase.get_stellar_distance(world given as {signame}) reports the value just set', got is val, f'returns {got!r}', mo.where(ms['get_stellar_distance']),
+                   method='interpreted accessor')
+        for signame, mk in (('int 2', lambda w: 2), ('moon instance', lambda w: w[2])):
+            o, worlds = fresh()
+            got = it2.call(mo, ms['get_stellar_distance'], [mk(worlds)], {}, self_obj=o)
+            chk.ob('R17.4', f'OrbitBase.get_stellar_distance(world given as {signame}) is the host\'s heliocentric semi-major axis (slot 0)', got is o.attrs['_semi_major_axes'][0],
+                   f'returns {got!r}', mo.where(ms['get_stellar_distance']), method='interpreted accessor')
     # clear_state clears all four together
     if 'clear_state' in ms:
         for kws, lab in (({}, 'clear_all'), ({'clear_all': False, 'clear_specific': 2}, 'clear_specific=world 2')):
             o, worlds = fresh()
             it2.call(mo, ms['clear_state'], [], kws, self_obj=o)
             pat = {tuple(v is None for v in o.attrs[k]) for k in FIELDS}
-            expect = (True, True, True) if lab == 'clear_all' else (False, False, True)
-            chk.ob('R17.4', f'OrbitBase.clear_state({lab}) clears a, n, P, e of the same worlds together', pat == {expect}, f'cleared patterns {sorted(pat)}', mo.where(ms['clear_state']),
+            # the four lists must be cleared in the same slots (a slot never keeps a period without its frequency); with the real signature resolution the
+            # tidal host resolves to its tide raiser's slot, so clear_all leaves the host's heliocentric slot 0 as a whole - consistent, hence not a C17 matter
+            ok = len(pat) == 1 and (all(list(pat)[0][1:]) if lab == 'clear_all' else list(pat)[0] == (False, False, True))
+            chk.ob('R17.4', f'OrbitBase.clear_state({lab}) clears a, n, P, e of the same worlds together', ok, f'cleared patterns {sorted(pat)}', mo.where(ms['clear_state']),
                    method='interpreted mutator')
     # wrappers pass (host mass, world mass)
     for wname, pyname in (('semi_a2orbital_motion', 'semi_a2orbital_motion'), ('orbital_motion2semi_a', 'orbital_motion2semi_a')):
@@ -204,5 +254,5 @@ def run(chk):
             r = it2.call(mo, ms[wname], [1, val], {'set_stellar_orbit': stellar}, self_obj=o)
             ref = call(mp, pyname, [val, Ms if stellar else Mh, Mw[1]])
             eq('R17.4', f'OrbitBase.{wname}(stellar={stellar}) == conversions.{pyname}(value, host mass, world mass)', r, ref, mo.where(ms[wname]))
-    chk.floor('R17.1', 26); chk.floor('R17.2', 17); chk.floor('R17.3', 5); chk.floor('R17.4', 20)
+    chk.floor('R17.1', 26); chk.floor('R17.2', 17); chk.floor('R17.3', 5); chk.floor('R17.4', 134)
     chk.assume('all inputs positive; cube and square roots are the real positive roots')
